@@ -295,23 +295,24 @@ def stream_greedy(ctx, cases, impl, name="S-greedy"):
     if not getattr(ctx, "greedy_model_ok", True):
         return False
     try:
-        cs = [(g_input(c, r), r["result"], c) for c, r in zip(cases, impl)]
-        mism = ctx.model_stream(name, HEADER, "ginput", "g_observe", cs)
+        vi = [i for i, r in enumerate(impl) if r["result"][0] != 0 or r["virtual"] is not None]
+        rest = [i for i in range(len(impl)) if i not in set(vi)]
+        cs = [(g_input(cases[i], impl[i]), [impl[i]["result"], expected_virtual(impl[i])], cases[i]) for i in vi]
+        mism = [(vi[k], mv) for k, mv in ctx.model_stream(name, HEADER, "ginput", "g_observe_both", cs)]
+        if rest:     # no copy()/deepcopy() of the pools was seen: only the decisions can be compared
+            cs = [(g_input(cases[i], impl[i]), impl[i]["result"], cases[i]) for i in rest]
+            mism += [(rest[k], [mv, None]) for k, mv in ctx.model_stream(name + "-nocopy", HEADER, "ginput", "g_observe", cs)]
         for idx, mv in mism[:3]:
+            dec_differs = core.norm_val(mv[0]) != core.norm_val(impl[idx]["result"])
             ctx.violation("%s_%d" % (name.replace("-", ""), idx),
                           {"stream": name, "case": cases[idx], "offered": impl[idx]["offered"],
                            "offered_attrs": impl[idx]["offered_attrs"], "init": impl[idx]["init"],
-                           "implementation": impl[idx]["result"], "model": mv, "error": impl[idx].get("error"),
-                           "what": "%s.schedule() returns decisions different from the model's" % POL[cases[idx]["policy"]]})
-        vi = [i for i, r in enumerate(impl) if r["result"][0] != 0 or r["virtual"] is not None]
-        cs = [(g_input(cases[i], impl[i]), expected_virtual(impl[i]), cases[i]) for i in vi]
-        mism2 = [(vi[k], mv) for k, mv in ctx.model_stream(name + "-virtual", HEADER, "ginput", "g_observe_final", cs)]
-        for idx, mv in mism2[:3]:
-            ctx.violation("%s_virt%d" % (name.replace("-", ""), idx),
-                          {"stream": name + "-virtual", "case": cases[idx], "init": impl[idx]["init"],
-                           "implementation_virtual": impl[idx]["virtual"], "model": mv,
-                           "what": "availability of the policy's virtual pools after schedule() differs from the model's"})
-        ok = not mism and not mism2
+                           "implementation": impl[idx]["result"], "model": mv[0], "error": impl[idx].get("error"),
+                           "implementation_virtual": impl[idx]["virtual"], "model_virtual": mv[1],
+                           "what": ("%s.schedule() returns decisions different from the model's" % POL[cases[idx]["policy"]])
+                           if dec_differs else
+                           "availability of the policy's virtual pools after schedule() differs from the model's"})
+        ok = not mism
     except core.ModelEvalError as e:
         ctx.broken.append({"kind": "correspondence", "name": name, "detail": str(e)[-600:]})
         ok = False
@@ -353,7 +354,7 @@ def run(ctx):
     ctx.build(ctx.pid, deps=["Model/Greedy.v"])
     ensure_model(ctx)
     quick = ctx.tier == "quick"
-    n = 1600 if quick else 16000
+    n = 1300 if quick else 16000
     cases = []
     while len(cases) < n:
         c = gen_case(ctx.rng)
@@ -404,7 +405,7 @@ def run(ctx):
         "every unplaced task fits no pool for any strategy once the placed tasks whose DOCUMENTED key is <= its own are "
         "accounted for (placements on single-worker pools commute).")
     extra = []
-    while len(extra) < (800 if quick else 8000):
+    while len(extra) < (700 if quick else 8000):
         c = gen_case(ctx.rng, single=True)
         if not f10_signature(c):
             extra.append(c)
